@@ -342,7 +342,13 @@ def _fold_list_appends(stmts):
 
 
 def _simple_test(t):
-    return all(isinstance(n, (ast.Name, ast.Constant, ast.Compare, ast.BoolOp, ast.UnaryOp, ast.Attribute, ast.Subscript, ast.cmpop, ast.boolop, ast.unaryop, ast.expr_context, ast.Tuple)) for n in ast.walk(t))
+    for n in ast.walk(t):
+        if isinstance(n, ast.Call):
+            if not (isinstance(n.func, ast.Name) and n.func.id in ("isinstance", "len") and not n.keywords):
+                return False
+        elif not isinstance(n, (ast.Name, ast.Constant, ast.Compare, ast.BoolOp, ast.UnaryOp, ast.Attribute, ast.Subscript, ast.cmpop, ast.boolop, ast.unaryop, ast.expr_context, ast.Tuple)):
+            return False
+    return True
 
 
 def _merge_arms(s):
